@@ -91,6 +91,16 @@ def impl_hier_compile(case):
         # derived resources whose calculator says "not applicable" (None) for every routine: nothing may change
         kw["derived_resources"] = [{"name": nm, "type": "other", "calculate": (lambda routine, backend: None)}
                                    for nm in case["derived_none"]]
+    if case.get("derived_leaf"):
+        # a derived resource its calculator works out for childless routines only (None elsewhere)
+        dl = case["derived_leaf"]
+
+        def _calc(routine, backend, _dl=dl):
+            if routine.children:
+                return None
+            base = routine.resources.get(_dl["of"])
+            return _dl["b"] if base is None else _dl["a"] * base.value + _dl["b"]
+        kw["derived_resources"] = list(kw.get("derived_resources", [])) + [{"name": dl["name"], "type": dl["type"], "calculate": _calc}]
     doc = to_qref(case["routine"])
     if case.get("native"):
         # integer literals handed over as native ints (a port of size 0 is the integer 0, not the text "0")
